@@ -187,10 +187,11 @@ func c09(tier string, args []string) int {
 		famP3(space.P3Opt{Quadrant: true}, "P3(extra piece in a1-d4)"),
 		famPCastle(0),
 		famPEP([]int8{space.R}, false, "PEP(extra=rook)"),
+		famPEPOwn([]int8{space.R}, "PEP(own rook)"),
 	}
 	if tier == "thorough" {
 		depth, seeds = 3, space.AllSeeds()
-		fams = stdFamilies(tier)
+		fams = append(stdFamilies(tier), famPEPOwn([]int8{space.Q, space.R, space.B, space.N}, "PEP(own piece)"), famPEP([]int8{space.P}, false, "PEP(extra=enemy pawn)"))
 	}
 	runFamilies(run, fams, nil, c09State)
 	runTree(run, seeds, depth, nil, c09State)
